@@ -271,6 +271,21 @@ func OracleC07(w *W2Run) []Violation {
 		}
 	}
 	init := modelOf(w.Rules)
+	// the same (execution, state) pair recurs in most serialisations: judge it once
+	type memoRes struct {
+		ok  bool
+		why string
+	}
+	memo := map[string]memoRes{}
+	matchMemo := func(v *CallView, st SetModel) (bool, string) {
+		key := fmt.Sprintf("%d|%v", v.C.Idx, st)
+		if r, ok := memo[key]; ok {
+			return r.ok, r.why
+		}
+		m, y := matchesState(w, v, st)
+		memo[key] = memoRes{m, y}
+		return m, y
+	}
 	// enumerate linear extensions
 	perm := make([]int, 0, n)
 	used := make([]bool, n)
@@ -299,7 +314,7 @@ func OracleC07(w *W2Run) []Violation {
 			ok := false
 			why := ""
 			for k := kmin; k <= kmax; k++ {
-				m, y := matchesState(w, v, states[k])
+				m, y := matchMemo(v, states[k])
 				if m {
 					ok = true
 					break
